@@ -47,5 +47,5 @@ class TrashInfoCreator:
             trash_info_data = TrashinfoData(basename, content,
                                             candidate.info_dir())
             return Right(trash_info_data)
-        except (IOError, OSError) as error:
+        except (IOError, OSError, UnicodeError) as error:
             return Left(UnableToCreateTrashInfoContent(error))
